@@ -340,6 +340,14 @@ def scripted_schedule(sd, net, t):
         plain = {i: [float(valid_pilot(stations[i]["evse"], random.Random(f"{sd['seed']}:{rel}:{i}:{j}"))) for j in range(L)]
                  for i in sorted(stations)}
         return plain, plain
+    if sd.get("mode") == "one_long":
+        # one plan of sd["L"] periods submitted at period sd["at"], empty schedules otherwise
+        if rel != sd.get("at", 0):
+            return {}, {}
+        ids = sorted(stations)
+        keep = [i for k, i in enumerate(ids) if k % 2 == 0] or ids[:1]
+        plain = {i: [float(valid_pilot(stations[i]["evse"], random.Random(f"{sd['seed']}:{i}:{j % 53}"))) for j in range(sd["L"])] for i in keep}
+        return plain, plain
     if sd.get("mode") == "cancel":
         # vehicle-to-grid style schedules on EVSEs whose range extends below zero: in most periods the pilots of the stations
         # cancel exactly (+x on one half, -x on the other), some periods are all zero, some are one-sided
